@@ -57,7 +57,10 @@ def multi_case(draw):
         kind = draw(st.sampled_from(["valid", "valid", "trunc", "trunc", "empty"]))
         prog = draw(gen_basic.program(dialect=dialect, max_lines=5))
         files.append({"kind": kind, "prog": prog, "cut": draw(st.integers(1, 2000))})
-    return {"mode": "multi", "dialect": dialect, "listo": draw(st.integers(0, 7)), "files": files}
+    # `stale`: one more file is appended whose single line is the head of an earlier file's line, cut right in front of
+    # a FOR / NEXT / REPEAT / UNTIL token -- whatever a reader leaves behind of the longer line sits just past this one
+    return {"mode": "multi", "dialect": dialect, "listo": draw(st.integers(0, 7)), "files": files,
+            "stale": draw(st.booleans())}
 
 
 def prog_bytes(prog):
@@ -77,7 +80,8 @@ class C09(CheckBase):
             "(line start, length, line number, terminator, end marker, anywhere) judged by a reference framing "
             "parser written from doc/bbcbasic.5 (reject => tool must reject and keep the complete lines; accept => "
             "same listing as the reference; documents silent => skipped); (c) histories of 1-4 input files (valid / truncated / "
-            "empty) -> stdout = concatenation of the per-file outputs, exit = max.  Non-trivial: a cut inside a "
+            "empty, optionally followed by a file whose one line is the head of an earlier line cut in front of a "
+            "loop token) -> stdout = concatenation of the per-file outputs, exit = max.  Non-trivial: a cut inside a "
             "line body, a fault after >= 1 good line, or a history containing a truncated file after another file")
     assumptions = ("O(P) is the tool's own output on the intact file (it must exit 0 there)",
                    "LE lines of length 3 (no CR at all) are accepted by the code deliberately; they appear only in "
@@ -398,6 +402,39 @@ class C09(CheckBase):
                 v.fail("C09/multi-single-crash", "file %d alone: signal/timeout" % i, r.brief())
                 return
             singles.append(r)
+        if case.get("stale"):
+            head = None
+            for f, k in zip(case["files"], kinds):
+                if k == "empty":
+                    continue
+                for num, body in f["prog"]["lines"]:
+                    body = bytes(body)
+                    for n in range(len(body)):
+                        if body[n] in (0xE3, 0xED, 0xF5, 0xFD) and body[:n].count(b'"') % 2 == 0 and 0x8D not in body[max(0, n - 3):n]:
+                            head = body[:n]
+                            break
+                    if head is not None:
+                        break
+                if head is not None:
+                    break
+            if head is not None:
+                # two more files: the full line alone (so that it is the last thing read), then its head
+                extra = []
+                for tag, ln in (("whole-line", body), ("head-of-that-line", head)):
+                    p = sb.file("stale-%s.bbc" % tag, rb.serialise(dialect, [(10, ln)]))
+                    rs = runtool.run(args + [p], sb.path)
+                    v.evaluations += 1
+                    if rs.signal is not None or rs.timed_out:
+                        extra = []
+                        break
+                    extra.append((p, rs, tag))
+                for p, rs, tag in extra:
+                    paths.append(p)
+                    singles.append(rs)
+                    kinds.append(tag)
+                if extra:
+                    v.nontrivial = True
+                    v.classes.append("line-that-is-the-head-of-the-previous-line")
         r = runtool.run(args + paths, sb.path)
         v.evaluations += 1
         v.classes.append("multi-%d" % len(paths))
